@@ -46,7 +46,7 @@ def run(ctx, rep):
     lp = loops[0]
     kv = [utext(e) for e in lp.target.elts] if isinstance(lp.target, ast.Tuple) else []
     calls = node_calls(cfg, "_calculate_process_traded")
-    rep.floor("R2", "calls of _calculate_process_traded", len(calls), 2)
+    rep.floor("R2", "calls of _calculate_process_traded", len(calls), 1)
     for n, c in calls:
         tgt = utext(n.ast.targets[0]) if isinstance(n.ast, ast.Assign) else None
         wb = [x for x in cfg.live_nodes() if x.kind == "stmt" and isinstance(x.ast, ast.Assign)
